@@ -21,6 +21,7 @@
 
    A configuration `c` is a record
      feePos, feeNeg, feeRecv        swap fee factors (positive / negative impact, receiver share)
+     feeDisc                        swap fee discount factor, -1 = none
      impPos, impNeg, impExp         swap impact factors and exponent (whole units)
      div                            usd_to_amount_divisor
      maxPool, maxPoolValue          max pool amount, max pool value for deposit
@@ -52,10 +53,11 @@ PricesValid(pr) == PriceValid(pr.idx) /\ PriceValid(pr.long) /\ PriceValid(pr.sh
 TokenPrice(pr, isLong) == IF isLong THEN pr.long ELSE pr.short
 
 -----------------------------------------------------------------------------
-(* params/fee.rs: FeeParams::apply_fees (Fees.tla) with the market's swap fee factors, no discount *)
+(* params/fee.rs: FeeParams::apply_fees (Fees.tla) with the market's swap fee factors;
+   c.feeDisc = -1: no discount factor configured *)
 FailFees == [ok |-> FALSE, after |-> 0, pool |-> 0, recv |-> 0]
 MktFees(c, change, amt) ==
-  LET r == ApplyFees([pf |-> c.feePos, nf |-> c.feeNeg, rf |-> c.feeRecv, disc |-> -1],
+  LET r == ApplyFees([pf |-> c.feePos, nf |-> c.feeNeg, rf |-> c.feeRecv, disc |-> c.feeDisc],
                      IF change = "improved" THEN 1 ELSE IF change = "worsened" THEN -1 ELSE 0, amt)
   IN IF ~r.ok THEN FailFees ELSE [ok |-> TRUE, after |-> r.net, pool |-> r.pool, recv |-> r.recv]
 
